@@ -108,6 +108,8 @@ pub struct OpRec {
     pub cancelled:  AtomicBool,
     /// the caller has dropped the returned future (stamp)
     pub dropped_at: AtomicU64,
+    /// stamp taken just before the returned future was polled for the first time
+    pub polled_at:  AtomicU64,
 }
 
 impl OpRec {
@@ -115,7 +117,7 @@ impl OpRec {
         OpRec { inv: AtomicU64::new(0), ret: AtomicU64::new(0), start: AtomicU64::new(0), end: AtomicU64::new(0), resolve: AtomicU64::new(0),
                 runs: AtomicU32::new(0), pendings: AtomicU32::new(0), runner: AtomicU32::new(0), run_tid: AtomicU64::new(0), call_tid: AtomicU64::new(0),
                 outcome: AtomicU32::new(0), accepted: AtomicBool::new(false), wait_polls: AtomicU32::new(0), cancelled: AtomicBool::new(false),
-                dropped_at: AtomicU64::new(0) }
+                dropped_at: AtomicU64::new(0), polled_at: AtomicU64::new(0) }
     }
 }
 
@@ -618,6 +620,7 @@ fn issue_simple(ctx: &Arc<RunCtx>, op: OpId, d: &Obj) {
 
 fn poll_then_drop(ctx: &Arc<RunCtx>, op: OpId, mut fut: ResFut<'_>, n: u8) {
     let rec = &ctx.recs[op];
+    if n > 0 { let _ = rec.polled_at.compare_exchange(0, clock(), ORD, ORD); }
     let cw = Arc::new(CountWaker(AtomicU64::new(0)));
     let waker = Waker::from(Arc::clone(&cw));
     let mut cx = Context::from_waker(&waker);
@@ -634,6 +637,7 @@ fn poll_then_drop(ctx: &Arc<RunCtx>, op: OpId, mut fut: ResFut<'_>, n: u8) {
 
 fn await_blocking(ctx: &Arc<RunCtx>, op: OpId, mut fut: ResFut<'_>) {
     let rec = &ctx.recs[op];
+    let _ = rec.polled_at.compare_exchange(0, clock(), ORD, ORD);
     let v = { let _b = ctx.blocked(op, PH_AWAIT); block_on_with(fut.as_mut(), |_| { rec.wait_polls.fetch_add(1, ORD); }) };
     check_value(ctx, op, v, "await");
     std::mem::drop(fut);
@@ -670,6 +674,7 @@ struct CountPolls<'a> { fut: ResFut<'a>, ctx: &'a RunCtx, op: OpId }
 impl<'a> Future for CountPolls<'a> {
     type Output = Result<u64, Canceled>;
     fn poll(mut self: Pin<&mut Self>, cx: &mut Context<'_>) -> Poll<Self::Output> {
+        let _ = self.ctx.recs[self.op].polled_at.compare_exchange(0, clock(), ORD, ORD);
         let r = self.fut.as_mut().poll(cx);
         if r.is_pending() { self.ctx.recs[self.op].wait_polls.fetch_add(1, ORD); }
         r
